@@ -6,9 +6,10 @@ CONSTANTS
   N = 4
   Hists = {2}
   MaxLen = 3
+  ForkMaxLen = 3
   Forks = {0, 1, 2, 3}
   ForkCkpts = FALSE
-  PinOffsets = {0}
+  PinOffsets = {1}
   Roles = {"Reader"}
   SeekBeyond = TRUE
   StepModes <- MC_StepModesQuick
